@@ -1801,6 +1801,19 @@ theorem TableOK.bump {binds : Array Binding} (hs : TableOK binds) {i : Nat} {b :
   · simp only [hij, if_false] at hx
     exact hs j x hx e he
 
+theorem TableOK.fired {binds : Array Binding} (hs : TableOK binds) {i : Nat} {b : Binding} (h : binds[i]? = some b) :
+    TableOK (binds.setIfInBounds i b.fired) := by
+  intro j x hx e he
+  rw [Array.getElem?_setIfInBounds] at hx
+  by_cases hij : i = j
+  · subst hij
+    simp only [if_true] at hx
+    split at hx
+    · cases hx; exact hs i b h e he
+    · cases hx
+  · simp only [hij, if_false] at hx
+    exact hs j x hx e he
+
 theorem allowed_alive {st : St} {a : Action} (h : allowed st a = true) :
     ∃ w, st.tree.wins[a.win]? = some w ∧ w.freed = false := by
   unfold allowed at h
@@ -1975,9 +1988,12 @@ theorem runBindings_safe (kind : Kind) (win : WinTree.Id) (ev : Ev) : ∀ (idxs 
     | none => simp only []; exact ih st held h
     | some b =>
       simp only []
-      have g1 : Good held (({ st with binds := st.binds.setIfInBounds bi { b with count := b.count + 1 } } : St).say
+      by_cases hg : b.gone = true
+      · simp only [hg, if_true]; exact ih st held h
+      simp only [hg, Bool.false_eq_true, if_false]
+      have g1 : Good held (({ st with binds := st.binds.setIfInBounds bi b.fired } : St).say
           (.call kind win b.idx (entryIndex b) b.entry.ret ev)) :=
-        ⟨⟨h.1.tree, h.1.drag, h.1.size, h.1.rc, h.1.leaf, h.1.held, h.1.root, h.1.pos⟩, h.2.bump hb _⟩
+        ⟨⟨h.1.tree, h.1.drag, h.1.size, h.1.rc, h.1.leaf, h.1.held, h.1.root, h.1.pos⟩, h.2.fired hb⟩
       apply SafeR.bind (doActions_safe _ _ held g1 (h.2.entry hb))
       intro st1 h1
       split
@@ -2720,7 +2736,7 @@ theorem newSt_good (lines cols : Int) : Good [] (newSt lines cols) := by
     exact Int.le_refl 1
 
 theorem addBinding_good {st : St} (h : Good [] st) (win : WinTree.Id) (kind : Kind) (es : List Entry)
-    (hes : ∀ e ∈ es, ∀ a ∈ e.actions, ActOK a) : Good [] (addBinding st win kind es).1 := by
+    (hes : ∀ e ∈ es, ∀ a ∈ e.actions, ActOK a) (os : Bool := false) : Good [] (addBinding st win kind es os).1 := by
   refine ⟨⟨h.1.tree, h.1.drag, h.1.size, h.1.rc, h.1.leaf, h.1.held, h.1.root, h.1.pos⟩, ?_⟩
   intro i b hb e he
   simp only [addBinding] at hb
